@@ -615,7 +615,8 @@ func GetRecords(name string, typ recordtype.Type) []string {
 
 	ctx := storage.GetReadOnlyContext()
 	tokenID := []byte(tokenIDFromName(ctx, name))
-	_ = getFragmentedNameState(ctx, tokenID, fragments) // ensure not expired
+	// fragments belong to name, the token may be an enclosing domain
+	_ = getFragmentedNameState(ctx, tokenID, nil) // ensure not expired
 	return getRecordsByType(ctx, tokenID, name, typ)
 }
 
@@ -666,7 +667,8 @@ func GetAllRecords(name string) iterator.Iterator {
 	}
 
 	ctx := storage.GetReadOnlyContext()
-	return getAllRecords(ctx, name, fragments)
+	// fragments belong to name, the token may be an enclosing domain
+	return getAllRecords(ctx, name, nil)
 }
 
 // updateBalance updates account's balance and account's tokens.
